@@ -610,6 +610,14 @@ class TGen:
         if depth < 3 and x < 0.25:
             t = self.su(depth + 1)
             return c06.strip_flex(t) if c06.has_flex(t) else t
+        if depth < 3 and 0.25 <= x < 0.29:
+            # array of two or three dimensions whose element is a struct/union described nowhere else
+            e = self.su(depth + 1)
+            if c06.has_flex(e):
+                e = c06.strip_flex(e)
+            for _ in range(r.choice([2, 2, 3])):
+                e = ("arr", e, r.choice([1, 2, 2, 3]))
+            return e
         if x < 0.45:
             if depth < 3 and r.random() < 0.4:
                 e = self.mtype(depth + 1)
